@@ -21,6 +21,28 @@ CBL_IF = """        if self.chunks.len() > 1 {
             self.length -= dropped;
         }
 """
+CW_BODY = """        let size = consumer(self.as_slice())?;
+        self.consume(size);
+        Ok(size)
+"""
+WAKER_CLOSURE = """        let waker = TerminalWaker::new(move || {
+            const WAKE: &[u8] = b"\\x00";
+            // use write syscall instead of locking so it would be safe to use in a signal handler
+            match rustix::io::write(&waker_write, WAKE) {
+                Ok(_) | Err(rustix::io::Errno::INTR | rustix::io::Errno::AGAIN) => Ok(()),
+                Err(error) => Err(error.into()),
+            }
+        });
+"""
+WAKER_HELPER = """fn waker_notify(waker_write: &UnixStream) -> Result<(), Error> {
+    const WAKE: &[u8] = b"\\x00";
+    match rustix::io::write(waker_write, WAKE) {
+        Ok(_) | Err(rustix::io::Errno::INTR | rustix::io::Errno::AGAIN) => Ok(()),
+        Err(error) => Err(error.into()),
+    }
+}
+
+"""
 WHILE = "        while !self.write_queue.is_empty() || self.events_queue.is_empty() {\n"
 
 MUTANTS = [
@@ -280,4 +302,52 @@ MUTANTS += [
 """ + POP_TAIL)]},
     {"id": "C16-guard-pops-one-byte-early", "prop": "C16", "expect": FE + "pop_front-guard", "edits": [
         (C, GUARD, "        if self.chunks.front().map(|chunk| chunk.len()).unwrap_or(0) > self.offset + amt + 1 {\n")]},
+    # ---- consume_with: the consume call inside a Result combinator closure; the waker body in a private helper ----------------
+    {"id": "C16-benign-consume-with-map-closure", "prop": "C16", "benign": True, "edits": [
+        (C, CW_BODY, """        consumer(self.as_slice()).map(|size| {
+            self.consume(size);
+            size
+        })
+""")]},
+    {"id": "C16-benign-consume-with-and-then", "prop": "C16", "benign": True, "edits": [
+        (C, CW_BODY, """        let sent = consumer(self.as_slice());
+        sent.and_then(|amount| {
+            self.consume(amount);
+            Ok(amount)
+        })
+""")]},
+    {"id": "C16-benign-consume-with-inspect", "prop": "C16", "benign": True, "edits": [
+        (C, CW_BODY, """        consumer(self.as_slice()).inspect(|size| self.consume(*size))
+""")]},
+    {"id": "C16-benign-consume-with-match", "prop": "C16", "benign": True, "edits": [
+        (C, CW_BODY, """        match consumer(self.as_slice()) {
+            Ok(size) => {
+                self.consume(size);
+                Ok(size)
+            }
+            Err(error) => Err(error),
+        }
+""")]},
+    {"id": "C16-consume-with-map-closure-wrong-amount", "prop": "C16", "expect": "RETURNS-FROM", "edits": [
+        (C, CW_BODY, """        let pending = self.as_slice().len();
+        consumer(self.as_slice()).map(|size| {
+            self.consume(pending);
+            size
+        })
+""")]},
+    {"id": "C16-consume-with-map-closure-amount-plus-one", "prop": "C16", "expect": "RETURNS-FROM", "edits": [
+        (C, CW_BODY, """        consumer(self.as_slice()).map(|size| {
+            self.consume(size + 1);
+            size
+        })
+""")]},
+    {"id": "C16-benign-waker-notify-helper", "prop": "C16", "benign": True, "edits": [
+        (U, WAKER_CLOSURE, "        let waker = TerminalWaker::new(move || waker_notify(&waker_write));\n"),
+        (U, DROP_IMPL, WAKER_HELPER + DROP_IMPL)]},
+    {"id": "C16-benign-waker-second-closure-before", "prop": "C16", "benign": True, "edits": [
+        (U, "        waker_write.set_nonblocking(true)?;\n", "        let nonblocking = |stream: &UnixStream| stream.set_nonblocking(true);\n        nonblocking(&waker_write)?;\n")]},
+    {"id": "C16-waker-notify-helper-also-called-from-frames-drop", "prop": "C16", "expect": "WHO-WRITES-TTY", "edits": [
+        (U, WAKER_CLOSURE, "        let waker = TerminalWaker::new(move || waker_notify(&waker_write));\n"),
+        (U, DROP_IMPL, WAKER_HELPER + DROP_IMPL),
+        (U, "        self.write_queue.clear_but_last()\n", "        self.write_queue.clear_but_last();\n        let _ = waker_notify(&self.waker_read);\n")]},
 ]
